@@ -15,6 +15,12 @@ the pool or of a callback registered on a *pending* promise — nothing is ever 
 event with no validity assumption at all, combined with the soundness invariant `Inv` (what such a
 callback means) by induction on the creation order of promises (`RootOf`'s lower bound: the promises a
 user function's future allocates are younger than the promise waiting for it).
+
+Audit finding 1 (session 6): `Valid` now includes the well-formedness side condition (`EvOK`: a source is never completed
+with `Try{}` / `Failure(nil)`, every constructed program is `WFE` — Lemmas/FutWF.lean).  The theorems of this file take
+`Valid` as hypothesis, so they no longer speak about runs in which a task of the Go code would panic in
+`t.Failed().Get()` and leave its promise pending (`C06.illformed_source_excluded`); along a valid run no ill-formed Try
+ever exists (`C06.wellformed_every_schedule`).
 -/
 namespace FpVerif.Spec.C06
 open FpVerif FpVerif.Fut
